@@ -76,6 +76,10 @@ def c05_worker(item):
         ws = wsgen.generate(seed, cfg)
         if r.random() < 0.1 and wsgen.add_nested_emptying(ws, r):
             res.count("shape:nested-directories-emptied")
+        if r.random() < 0.08 and wsgen.add_note_patch(ws, r):
+            res.count("shape:patch-file-without-any-file-patch")
+        if r.random() < 0.08 and wsgen.add_empty_dirs(ws, r):
+            res.count("shape:empty-directories-in-the-starting-tree")
     threads = r.choice([1, 1, 2, 4, 16])
     backup = r.choice(["always", "onfail", "never", None])
     verbosity = r.choice(["-q", "-q", None, "-v"])
@@ -162,7 +166,7 @@ def c05_worker(item):
             elif (obs["applied"] or []) != want_applied:
                 res.viol(dict(sig, what="applied-patches"), "applied-patches %r, expected %r; stderr %s" % (obs["applied"], want_applied, rr.err.decode("utf-8", "replace")[-300:]), orig, [binary] + args)
             else:
-                diffs = runner.tree_diff(obs["tree"], obs["dirs"], ws.trees[first], check_dirs=True, rej_paths=list(obs["rej"]))
+                diffs = runner.tree_diff(obs["tree"], obs["dirs"], ws.trees[first], check_dirs=True, rej_paths=list(obs["rej"]) + [d + "/." for d in getattr(ws, "extra_dirs", ())])
                 if diffs:
                     res.viol(dict(sig, what="tree"), "a target could not be loaded (patch %d) but the tree changed: %s; stderr %s" % (unloadable_at, diffs[:3], rr.err.decode("utf-8", "replace")[-300:]), orig, [binary] + args)
                 else:
@@ -427,6 +431,8 @@ def c09_worker(item):
         ws = c09_type_change_case(r, seed)
         shape = "path-changes-between-file-and-directory"
         res.count("shape:" + shape)
+    if r.random() < 0.08 and not getattr(ws, "no_goal_truth", False) and wsgen.add_note_patch(ws, r):
+        res.count("shape:patch-file-without-any-file-patch")
     if r.random() < 0.08 and not getattr(ws, "no_goal_truth", False) and wsgen.add_nested_emptying(ws, r):
         res.count("shape:nested-directories-emptied")
     if r.random() < 0.1 and not getattr(ws, "no_goal_truth", False) and wsgen.add_newdir_reject(ws, r):
@@ -723,6 +729,8 @@ def c13_worker(item):
         return res
     if r.random() < 0.15 and wsgen.add_newdir_reject(ws, r):
         res.count("shape:reject-in-a-directory-created-by-this-run")
+    if r.random() < 0.1 and wsgen.add_empty_dirs(ws, r):
+        res.count("shape:empty-directories-in-the-starting-tree")
     if r.random() < 0.04:
         dws = c13_drift_case(r, seed)
         if dws is not None:
@@ -758,9 +766,16 @@ def c13_worker(item):
         res["evals"] = 1
         out = cli.check_push_outcome(res, ws, work, rr, 0, len(ws.patches), sig0, [binary] + args)
         if not out:
+            classes = set(v["sig"].get("class") for v in res["violations"])
             res["violations"] = [v for v in res["violations"] if v["sig"].get("class") == "crash"]
-            res.count("runs-not-judged-(C05-oracle-failed)")
-            return res
+            if classes != {"tree-differs"}:
+                res.count("runs-not-judged-(C05-oracle-failed)")
+                return res
+            # only the tree is wrong (C05's finding); exit status and applied-patches are as expected, so the rejects of the
+            # failing patch are still judged against what must be there by construction
+            res.count("runs-with-a-wrong-tree-whose-rejects-are-still-judged")
+            k, exp_tree, fail_idx = wsgen.expected_after(ws, 0, len(ws.patches))
+            out = (k, exp_tree, fail_idx, cli.observe(work))
         k, exp_tree, fail_idx, obs = out
         exp = expected_rejects(ws, fail_idx)
         fp = ws.patches[fail_idx]
@@ -776,6 +791,10 @@ def c13_worker(item):
                 while d:
                     tree_dirs.add(d)
                     d = os.path.dirname(d)
+            for q in getattr(ws, "extra_dirs", ()):
+                while q:
+                    tree_dirs.add(q)
+                    q = os.path.dirname(q)
             dir_exists = parent == "" or parent in tree_dirs
             if rp not in got:
                 if dir_exists:
@@ -1483,6 +1502,13 @@ def spell_series_line(r, p):
 def c16_options_case(r, seed, binary, res):
     cfg = wsgen.GenConfig(p_fail=0.25, max_patches=r.choice([2, 4, 6]))
     ws = wsgen.generate(seed, cfg)
+    if r.random() < 0.25:
+        # patch names with a '#' inside (only a '#' at the start of a line begins a comment)
+        for p in ws.patches:
+            if r.random() < 0.5:
+                d, b = os.path.split(p.name)
+                p.name = os.path.join(d, "bug#%d-%s" % (r.randint(1, 99), b))
+        res.count("series-with-#-inside-patch-names")
     lines = []
     for p in ws.patches:
         if r.random() < 0.3:
@@ -2194,6 +2220,8 @@ def c06_worker(item):
         res.count("shape:reject-in-a-directory-created-by-this-run")
     if r.random() < 0.1 and wsgen.add_nested_emptying(ws, r):
         res.count("shape:nested-directories-emptied")
+    if r.random() < 0.08 and wsgen.add_note_patch(ws, r):
+        res.count("shape:patch-file-without-any-file-patch")
     if ws.fail_at is not None and ws.fail_at + 1 < len(ws.patches) and r.random() < 0.12:
         # a patch AFTER the failing one names something that can not be loaded (a directory in its place), as the target of a
         # modification or as the new name of a rename: a single-threaded run never gets there, so a worker that runs ahead
